@@ -125,10 +125,9 @@ Proof.
 Qed.
 Print Assumptions extraction_failure_leaves_no_results.
 
-(* 6. _internal_data does not survive a hydraulic / bidirectional stage that ends by itself (return or
-   PipeflowNotConverged after the loop) unless reuse_internal_data is set *)
+(* 6. _internal_data does not survive a hydraulic / bidirectional stage, however the stage ends (return,
+   PipeflowNotConverged, any exception escaping from the Newton loop), unless reuse_internal_data is set *)
 Theorem internal_data_dropped : forall k hu more r n, k <> KHeat ->
-  ri_escape r = NoEscape -> Forall (fun x => ri_escape x = NoEscape) more ->
   n_idata (fst (fst (stage k false hu r more n))) = false.
 Proof. exact stage_idata. Qed.
 Print Assumptions internal_data_dropped.
